@@ -513,6 +513,18 @@ class Gen:
             yield self.g_probe_string(w, 0, sym=tgt)
         for _ in range(r.randrange(1, 3)):
             yield self.g_probe_string(w, 0, sym=sym)
+        if kind in ("add", "define") and r.random() < 0.5:
+            # data of a CUSTOM registry restored after the default registry was extended: what the default registry
+            # holds now is not part of what was persisted
+            cn = self.custom_nodes(w)
+            if not cn:
+                yield self.g_new_node(w, route="plain")
+                cn = [len(w.nodes) - 1]
+            src = r.choice(cn)
+            if r.random() < 0.5:
+                yield self.g_new_node(w, route=r.choice(["json", "pickle", "pickle_pair", "deepcopy", "unitcopy_deep"]), src=src)
+            else:
+                yield {"k": "restart", "node": src, "route": r.choice(["json", "pickle", "deepcopy"])}
 
     def s_restart(self, w):
         r = self.rng
@@ -709,6 +721,17 @@ class Gen:
                 base[dim] = sym if r.random() < 0.75 else r.choice(["k", "m", "M"]) + sym
             else:
                 base[dim] = r.choice(fallback)
+        if r.random() < 0.3:
+            # a construction that is refused (arguments mixed up / unknown symbol), under a built-in's name or a new one
+            yield {"k": "mkusys_bad", "node": ni, "h": 0,
+                   "name": r.choice(["cgs", "mks", "galactic", "imperial", "solar", "planck", f"badsys{self.nsys}"]),
+                   "len": r.choice(["g", "s", "nosuchunit", "K", "kg"]), "mass": r.choice(["g", "kg", base["mass"]]),
+                   "time": r.choice(["s", base["time"]])}
+            if r.random() < 0.7:
+                # built-in data afterwards
+                yield {"k": "quantity", "node": 0, "h": 0, "v": 3.0, "s": "km", "route": "ctor", "store": True}
+                yield {"k": "base", "x": w.last_stored, "sys": r.choice(["cgs", "mks", "galactic", "imperial"]), "how": "in_base",
+                       "store": False}
         name = f"simsys{self.nsys}"
         if r.random() < 0.3:
             # a name that differs from a built-in system's only by case: names are case-sensitive, so this is a
@@ -921,6 +944,8 @@ class Sim:
             self.flags["cross_or_restore"] = True
         else:
             raise HarnessError(route)
+        if route in ("json", "pickle", "pickle_pair", "deepcopy", "unitcopy_deep", "lut") and src.kind == "custom":
+            self.check_default_additions(reg, src.model, op)
         # contents of a new node = whatever its table holds now (C11, not
         # C12/C13, decides whether a restore reproduced its source)
         model = dict(reg.lut)
@@ -929,6 +954,16 @@ class Sim:
         if route == "pickle_pair" and len(w.nodes) < 6:
             w.nodes.append(rw.Node(len(w.nodes), "custom", extra_reg, dict(extra_reg.lut), extra_reg.unit_system.name))
         return {"n": len(model), "usys": node.usys}
+
+    def check_default_additions(self, reg, src_model, op):
+        """Symbols this run added to the DEFAULT registry are not part of a custom registry's persisted contents: a
+        registry restored / copied from custom data must not hold them (unless its source did)."""
+        leaked = sorted(s_ for s_ in self.d_new if s_ in reg.lut and s_ not in src_model)
+        if leaked:
+            self.violate("restore-leak", ["C13"],
+                         {"op": op, "symbols": leaked,
+                          "note": "symbols added to the default registry in this process appear in a registry restored "
+                                  "from another registry's data"}, [op["k"], op.get("route"), "default-additions-injected"])
 
     def _via_hdf5(self, reg, op):
         """write_hdf5 / from_hdf5 (unyt's real code) against the in-process h5py stand-in: the registry of the array
@@ -996,6 +1031,8 @@ class Sim:
             reg = self._via_hdf5(node.reg, op)
         else:
             reg = copy.deepcopy(node.reg)
+        if route in ("json", "pickle", "deepcopy"):
+            self.check_default_additions(reg, node.model, op)
         w.drop_node_objects(node)
         node.handles = [reg]
         node.model = dict(reg.lut)
